@@ -70,7 +70,7 @@ func exhaustive(alphabet []string, maxLen int, f func([]byte)) int {
 
 // hostile is the marker-rich byte set used for damage and random generation.
 var hostile = []string{">", "-", "+", "*", "_", "#", "`", "~", "=", "[", "]", "(", ")", "<", ">", "!", "\\", "&", "\"", "'", ":",
-	" ", "\t", "\n", "\r", "\x00", "\x80", "\xc3", "\xff", "a", "b", "1", ".", "/", ";", "é", " ", "  \n", "\r\n", "\n\n", "    ", "|", "?", "%", "@", "x"}
+	" ", "\t", "\n", "\r", "\x00", "\x80", "\xc3", "\xff", "a", "b", "1", ".", "/", ";", "é", " ", "  \n", "\r\n", "\n\n", "    ", "|", "?", "%", "@", "x", "\f", "\v", "\u00a0", "\u2003", "\u0085", "\f\n", "\u00a0\n"}
 
 // fragments: tricky pieces whose products exercise multi-line constructs inside containers etc.
 var fragments = []string{
@@ -186,8 +186,36 @@ func (s *inputSource) wrap(doc []byte) []byte {
 	return []byte(sb.String())
 }
 
-// mixed yields n inputs drawn from all non-exhaustive sources (corpus, damage, fragments, random, wrapped).
+// stretchTemplates: constructs with one position (%s) that is filled with long runs, to reach every
+// length-related limit and fixed-size buffer in the code (tag names, entity names, schemes, labels, digits, fences).
+var stretchTemplates = []string{
+	"<%s>", "</%s>", "<%s a=\"b\">", "<a %s=\"b\">", "<a b=\"%s\">", "<div>\n<%s>\n", "&%s;", "&#%s;", "&#x%s;", "<%s:x>", "<a@%s.c>", "<a@b.%s>",
+	"[%s]", "[a](%s)", "[a](/u \"%s\")", "[%s]: /u\n\n[%s]", "```%s\nx\n```\n", "%s. x", "#%s", "%s", "*%s*", "`%s`", "> %s", "- %s\n  %s",
+}
+
+// stretched yields every stretch template filled with runs of one character at lengths around powers of two
+// (and around 1000 for link labels). Deterministic.
+func stretched(f func([]byte)) {
+	chars := []string{"A", "a", "1", "-", "é", "aB"}
+	lengths := []int{31, 32, 33, 34, 63, 64, 65, 255, 256, 257}
+	for _, t := range stretchTemplates {
+		for _, c := range chars {
+			ls := lengths
+			if strings.HasPrefix(t, "[%s]") {
+				ls = append(append([]int(nil), lengths...), 998, 999, 1000, 1001)
+			}
+			for _, n := range ls {
+				run := strings.Repeat(c, (n+len(c)-1)/len(c))[:n]
+				f([]byte(strings.ReplaceAll(t, "%s", run)))
+			}
+		}
+	}
+}
+
+// mixed yields the stretched inputs and then n inputs drawn from all non-exhaustive sources (corpus, damage,
+// fragments, random, wrapped).
 func (s *inputSource) mixed(n int, f func([]byte)) {
+	stretched(f)
 	ex := specExamples()
 	for i := 0; i < n; i++ {
 		var doc []byte
